@@ -119,7 +119,29 @@ func genConcat(r *gen.R, validOnly bool) (mon.OpReq, Expect, bool) {
 		ax = axis - rank
 	}
 	if !validOnly && r.Chance(0.25) {
-		switch r.Intn(4) {
+		switch r.Intn(5) {
+		case 4:
+			// one input whose off-axis extents disagree with the others although they multiply to the
+			// same count (two extents exchanged, or two merged into one)
+			if n > 1 && rank > 2 {
+				k := r.Range(1, n-1)
+				shape := append([]int{}, ins[k].Shape...)
+				var off []int
+				for d := 0; d < rank; d++ {
+					if d != axis {
+						off = append(off, d)
+					}
+				}
+				i, j := off[0], off[len(off)-1]
+				if shape[i] != shape[j] && r.Bool() {
+					shape[i], shape[j] = shape[j], shape[i]
+				} else {
+					shape[i], shape[j] = shape[i]*shape[j], 1
+				}
+				if !ref.ShapeEq(shape, ins[k].Shape) {
+					ins[k] = r.Tensor(first.DT, shape, gen.FillUnique, 0)
+				}
+			}
 		case 3:
 			// an input without elements that ALSO disagrees with the others (another extent off
 			// the axis, or another rank): no valid result, whatever the library does with empty inputs
